@@ -65,6 +65,11 @@ def _closure_callee(facts, body, t):
         cb = facts.by_path.get(e.q)
         if cb is not None and cb.parent and cb.parent.get("path") == body.path:
             return cb
+    if e is not None and e.k == "const" and e.q and e.f:
+        # a function item used as the callable (`self.with_state(BufferState::write_range)`)
+        cands = [hb for hb in facts.by_q.get(e.q, []) if hb.kind != "closure"]
+        if len(cands) == 1 and cands[0].path != body.path:
+            return cands[0]
     return None
 
 
@@ -91,6 +96,7 @@ def inline_body(facts, body, pick, depth=2, closures=False):
     stack_guard = {body.path}
     for _round in range(depth):
         todo = []
+        via_fn_trait = {}
         tmp = Body(j, body.crate)
         reach = tmp.reachable(0)
         for bb in sorted(reach):
@@ -98,7 +104,9 @@ def inline_body(facts, body, pick, depth=2, closures=False):
             hb = _unique_callee(facts, tmp, t)
             if hb is None and closures:
                 cb = _closure_callee(facts, tmp, t)
-                if cb is not None and pick(cb):
+                if cb is not None and (pick(cb) or cb.kind != "closure"):
+                    if cb.kind != "closure":
+                        via_fn_trait[bb] = True
                     todo.append((bb, cb))
                 continue
             if hb is None or hb.path in stack_guard or not pick(hb) or len(t["args"]) != hb.argc:
@@ -108,6 +116,23 @@ def inline_body(facts, body, pick, depth=2, closures=False):
             break
         for bb, hb in todo:
             t = j["blocks"][bb]["term"]
+            if via_fn_trait.get(bb):
+                # `FnOnce::call_once(fn_item, (a1, a2, ..))` becomes the direct call `fn_item(a1, a2, ..)`: the callee stays a
+                # call (rules know the ring's accessors by name), only the indirection through the Fn trait goes away
+                fe = None
+                from .mir import peel as _peel
+                e = _peel(tmp.operand_expr(t["args"][0]), through_try=False)
+                n_ = 0
+                while e is not None and e.k in ("ref", "deref") and n_ < 4:
+                    e = _peel(e.a, through_try=False)
+                    n_ += 1
+                tup = t["args"][1].get("m") or t["args"][1].get("c")
+                if e is not None and e.k == "const" and e.f and tup is not None:
+                    t["f"] = dict(e.f)
+                    t["args"] = [{"c": {"l": tup["l"], "p": list(tup["p"]) + [{"f": i, "n": None, "o": None, "v": None}]}} for i in range(hb.argc)]
+                    t["argtys"] = []
+                    inlined.append("call:" + hb.q)
+                continue
             loff = len(j["locals"])
             boff = len(j["blocks"])
             poff = len(j.get("promoted") or [])
